@@ -219,8 +219,201 @@ def gen_value(rng, signed=True):
     return -m if (signed and rng.chance(1, 3)) else m
 
 
+BN = [3, 3, 3, 4, 5, 7, 8, 9, 15, 16, 17, 24, 31, 32, 33]
+M64 = (1 << 64) - 1
+
+
+def max_compact(n):
+    return n + n // 4 + 4
+
+
+def top_set(rng, n):
+    """a magnitude of exactly n words"""
+    return (1 << (64 * n - 1)) | rng.bits(64 * n - 1) if n > 0 else 0
+
+
+def gen_boundary(rng, k=None):
+    """2-4 steps that put a FRESH value of known capacity into a slot (from_words without padding:
+    capacity = default_capacity(len); two words: inline) and apply ONE arithmetic step placed exactly at
+    a threshold of the buffer handling of that step kind: the carry that crosses 2 -> 3 words, the borrow
+    that comes back 3 -> 2, len = capacity (the next carry must reallocate: push_resizing), the in-place
+    test of shl_large at equality and one beyond, ensure_capacity at equality / one beyond, the shrink
+    rule of from_buffer at capacity = max_compact_capacity(len) and one beyond."""
+    d = rng.below(4)
+    e = (d + 1 + rng.below(3)) % 4
+    t = rng.choice([d, d, e, (e + 1) % 4 if (e + 1) % 4 != d else e])
+    n = rng.choice(BN)
+    c = default_cap(n)
+    form = rng.choice(FORMS)
+    sgn = rng.choice(["u", "u", "i"])
+    fw = lambda slot, x: "fw %x %s 0" % (slot, hx(x))
+    dw = lambda slot, x: "dw %x %s 0" % (slot, hx(x))
+    if k is None:
+        k = rng.below(20)
+    if k == 0:
+        # add: two double words whose sum needs a third word (add_dword spills) or just does not
+        x = (1 << 128) - rng.choice([1, 1, 2, 1 << 64, rng.bits(64) + 1])
+        y = rng.choice([(1 << 128) - x, (1 << 128) - x - 1, 1, x, rng.bits(128)])
+        return [dw(d, x), dw(e, y), "%sadd %s %x %x %x" % (sgn, form, t, d, e)]
+    if k == 1:
+        # sub: three words minus something that leaves two / one / zero words (buffer freed, value inline)
+        x = (1 << 128) + rng.choice([0, 0, 1, rng.bits(64), rng.bits(128)])
+        y = rng.choice([1, x - (1 << 128) + 1, x - M64, x - 1, x, rng.bits(128) | 1])
+        return [fw(d, x), fw(e, y) if y >> 128 else dw(e, y), "%ssub %s %x %x %x" % (sgn, form, t, d, e)]
+    if k == 2:
+        # add_large: n words + c words = ensure_capacity at equality (no reallocation, len = capacity), with or
+        # without a final carry (push_resizing must reallocate); c + 1 words: ensure_capacity reallocates
+        ny = rng.choice([c, c, c, c + 1, c - 1, n])
+        x = top_set(rng, n)
+        carry = rng.chance(1, 2)
+        y = ((1 << (64 * ny)) - x) if carry else (top_set(rng, ny) >> 1 | 1 << (64 * ny - 2)) if ny > n else (((1 << (64 * n)) - 1) ^ x) | 1 << (64 * n - 2)
+        if y <= 0 or nwords(y) < 1:
+            y = 1
+        return [fw(d, x), fw(e, y) if nwords(y) > 2 else dw(e, y), "%sadd %s %x %x %x" % (sgn, form, t, d, e)]
+    if k == 3:
+        # add of a primitive to an all-ones value with len = capacity - the carry ripples to a new top word
+        x = (1 << (64 * n)) - 1
+        steps = [fw(d, x), "setbit %x %x" % (d, 64 * c - 1)]          # len = capacity, in place
+        y = (1 << (64 * c)) - (x | 1 << (64 * c - 1))
+        steps.append(fw(e, y) if nwords(y) > 2 else dw(e, y))
+        steps.append("%sadd %s %x %x %x" % (sgn, rng.choice(["vr", "av", "ar", "vv", "rr", "rv"]), t, d, e))
+        return steps
+    if k == 4:
+        # sub that shrinks: result of L words where capacity = max_compact_capacity(L) (kept) or one more (reallocated)
+        big = rng.choice([16, 24, 32, 33, 40])
+        cb = default_cap(big)
+        ls = [l for l in range(3, big) if max_compact(l) in (cb - 1, cb, cb + 1)] + [1, 2, 3]
+        l = rng.choice(ls)
+        x = top_set(rng, big)
+        r = top_set(rng, l)
+        y = x - r
+        st = [fw(d, x), fw(e, y)]
+        if rng.chance(1, 3):
+            # negative result: the signed subtraction swaps the roles (sub_large_ref_val grows the shorter buffer)
+            return st + ["isub %s %x %x %x" % (form, t, e, d)]
+        return st + ["%ssub %s %x %x %x" % (sgn, form, t, d, e)]
+    if k == 5:
+        # signed subtraction of a longer from a shorter value: the by-value right operand is grown to len lhs
+        x = top_set(rng, n)
+        ny = rng.choice([c, c + 1, c - 1, n + 1])
+        y = top_set(rng, ny)
+        a, b = rng.choice([(d, e), (e, d)])
+        return [fw(d, x), fw(e, y), "%s %s %x %x %x" % (rng.choice(["isub", "iadd"]), form, t, a, b), "neg %x" % rng.choice([d, e, t])]
+    if k == 6:
+        # mul: double word x double word around the 2 / 3 / 4 word results
+        x = rng.choice([M64, 1 << 64, (1 << 128) - 1, rng.bits(128) | 1 << 127, rng.bits(64) | 1 << 63])
+        y = rng.choice([M64, 1 << 64, (1 << 128) - 1, 2, rng.bits(128) | 1 << 127, rng.bits(64) | 1 << 63, 1 << 63])
+        return [dw(d, x), dw(e, y), "%smul %s %x %x %x" % (sgn, form, t, d, e)]
+    if k == 7:
+        # mul_large_dword on a buffer with len = capacity: word carry (push_resizing) / double word carry (len + 2)
+        x = top_set(rng, n) | 1 << (64 * n - 1)
+        steps = [fw(d, x)]
+        if rng.chance(2, 3):
+            steps.append("setbit %x %x" % (d, 64 * rng.choice([c, c, c - 1]) - 1))
+        y = rng.choice([M64, 2, 1 << 63, (1 << 128) - 1, 1 << 64, 1 << 127, rng.bits(64) | 1, 3])
+        if y <= M64 and rng.chance(1, 2):
+            steps.append("mulp %x u64 %s" % (d, hx(y)))
+        else:
+            steps += [dw(e, y), "%smul %s %x %x %x" % (sgn, form, t, d, e)]
+        return steps
+    if k == 8:
+        # shl_large: in-place test capacity >= len + shift_words + 1 at equality, one word beyond, one bit around
+        x = top_set(rng, n) if rng.chance(1, 2) else (1 << (64 * n)) - 1
+        sw = rng.choice([c - n - 1, c - n - 1, c - n, c - n - 2, 0])
+        bits = 64 * max(0, sw) + rng.choice([0, 0, 1, 63])
+        return [fw(d, x), "%s %s %x %x %x" % (rng.choice(["shl", "shl", "ishl"]), rng.choice(["v", "a", "a", "r"]), t, d, bits)]
+    if k == 9:
+        # shl of one / two words that spills: shl_dword (1 << n: n / 64 + 1 words; else shift_words + 3)
+        x = rng.choice([1, 1, 3, M64, 1 << 64, (1 << 128) - 1, rng.bits(128) | 1])
+        lz = 128 - x.bit_length()
+        bits = rng.choice([lz, lz + 1, lz + 64, 128, 127, 129, 64 * rng.range(2, 20) + rng.choice([0, 1, 63])])
+        return [dw(d, x), "%s %s %x %x %x" % (rng.choice(["shl", "shl", "ishl"]), rng.choice(["v", "a", "r"]), t, d, bits)]
+    if k == 10:
+        # shr: down to 3 / 2 / 1 / 0 words, and to L words with capacity = max_compact_capacity(L) or one beyond
+        big = rng.choice([5, 8, 16, 24, 32, 33, 40])
+        cb = default_cap(big)
+        ls = [l for l in range(3, big) if max_compact(l) in (cb - 1, cb, cb + 1)] + [0, 1, 2, 3, 3]
+        l = rng.choice(ls)
+        x = top_set(rng, big) | 1 << (64 * big - 1)
+        bits = 64 * (big - l) + rng.choice([0, 0, 63, 1])
+        return [fw(d, x), "%s %s %x %x %x" % (rng.choice(["shr", "shr", "ishr"]), rng.choice(["v", "a", "a", "r"]), t, d, max(0, bits))]
+    if k == 11:
+        # set_bit on a buffer: idx < len; idx = len .. capacity - 1 (in place); idx = capacity (ensure_capacity reallocates)
+        x = top_set(rng, n)
+        idx = rng.choice([n - 1, n, n, c - 1, c - 1, c, c, c + 1, c + 7])
+        steps = [fw(d, x), "setbit %x %x" % (d, 64 * idx + rng.choice([0, 63, rng.below(64)]))]
+        if rng.chance(1, 2):
+            steps.append("clrbit %x %x" % (d, 64 * idx + rng.below(64)))
+        return steps
+    if k == 12:
+        # set_bit on an inline value: bit 127 / 128 (with_bit_dword_spilled: idx + 1 words, idx - 2 zeros)
+        x = rng.choice([0, 1, M64, 1 << 64, (1 << 128) - 1, rng.bits(128)])
+        bit = rng.choice([127, 128, 128, 129, 191, 192, 64 * rng.range(2, 30) + rng.below(64)])
+        steps = [dw(d, x), "setbit %x %x" % (d, bit), "clrbit %x %x" % (d, bit)]
+        return steps if rng.chance(2, 3) else steps[:2]
+    if k == 13:
+        # clear_bit of the only bit above two words / of the top bit of a long value (shrink or inline)
+        big = rng.choice([3, 3, 4, 9, 17, 33])
+        lowl = rng.choice([0, 1, 2, 3])
+        x = 1 << rng.range(64 * (big - 1), 64 * big - 1)
+        x |= top_set(rng, lowl)
+        return [fw(d, x), "clrbit %x %x" % (d, x.bit_length() - 1)]
+    if k == 14:
+        # x op= &x.clone() patterns on a heap value at len = capacity
+        x = (1 << (64 * n)) - 1
+        steps = [fw(d, x), "setbit %x %x" % (d, 64 * c - 1)]
+        steps.append("%s %s %x %x %x" % (rng.choice(["uadd", "iadd", "isub", "usub", "umul", "imul"]), rng.choice(["av", "ar", "vv", "vr", "rv", "rr"]), d, d, d))
+        return steps
+    if k == 16:
+        # & : a long value and a mask that leaves 3 / 2 / 1 / 0 words (truncate + shrink or inline); small & large (lowest_dword)
+        big = rng.choice([3, 4, 9, 17, 33])
+        l = rng.choice([0, 1, 2, 3, 3, big])
+        x = top_set(rng, big)
+        y = rng.choice([top_set(rng, l), (1 << (64 * l)) - 1, top_set(rng, l) | 1 << (64 * big - 1)]) if l else rng.choice([0, 1 << (64 * big)])
+        o = rng.choice(["uand", "uand", "iand"])
+        a, b = rng.choice([(d, e), (e, d)])
+        return [fw(d, x), fw(e, y) if nwords(y) > 2 else dw(e, y), "%s %s %x %x %x" % (o, form, t, a, b)]
+    if k == 17:
+        # | ^ : n words with c (= capacity: ensure_capacity at equality) / c + 1 / n words; x ^ x = 0; equal top words (shrink)
+        x = top_set(rng, n)
+        ny = rng.choice([c, c, c + 1, n, n, 2, 1])
+        y = rng.choice([top_set(rng, ny), x, x ^ rng.bits(64 * rng.choice([1, 2, 3])), x ^ top_set(rng, max(1, n - 1))])
+        o = rng.choice(["uor", "uxor", "uxor", "ior", "ixor"])
+        a, b = rng.choice([(d, e), (e, d)])
+        return [fw(d, x), fw(e, y) if nwords(y) > 2 else dw(e, y), "%s %s %x %x %x" % (o, form, t, a, b)]
+    if k == 18:
+        # / : a dividend with len = capacity whose quotient has a top word (push_resizing must reallocate), quotients
+        # of 3 / 2 / 1 / 0 words, division by one and two words, by zero with an owned dividend (released)
+        x = top_set(rng, n)
+        steps = [fw(d, x)]
+        if rng.chance(1, 2):
+            steps.append("setbit %x %x" % (d, 64 * c - 1))
+            nx = c
+        else:
+            nx = n
+        ny = rng.choice([3, 3, max(3, nx - 2), max(3, nx - 1), nx, 2, 1, 0])
+        y = rng.choice([1 << (64 * (ny - 1)), top_set(rng, ny) >> rng.choice([1, 32, 63]), top_set(rng, ny)]) if ny else 0
+        steps.append(fw(e, y) if nwords(y) > 2 else dw(e, y))
+        steps.append("%s %s %x %x %x" % (rng.choice(["udiv", "udiv", "idiv"]), form, t, d, e))
+        return steps
+    if k == 19:
+        # % : remainder of 3 / 2 / 1 / 0 words in the divisor's buffer; dividend shorter than the divisor
+        # (from_buffer of the dividend / clone_from_slice into the by-value divisor)
+        ny = rng.choice([3, 3, 4, n, n + 1, n + 2])
+        y = top_set(rng, ny)
+        nx = rng.choice([n, n, n + 3, 3])
+        x = rng.choice([top_set(rng, nx), y * top_set(rng, 2) + rng.bits(64 * rng.choice([1, 2, 3])), y * 3])
+        a, b = (d, e)
+        return [fw(d, x) if nwords(x) > 2 else dw(d, x), fw(e, y), "%s %s %x %x %x" % (rng.choice(["urem", "urem", "irem"]), form, t, a, b)]
+    # subtraction / addition of a primitive across the boundary
+    x = rng.choice([1 << 128, (1 << 128) + 5, (1 << 128) - 1, 1 << 192])
+    return [fw(d, x) if x >> 128 else dw(d, x), "%s %x %s %s" % (rng.choice(["subp", "addp"]), d, rng.choice(["u64", "i64"]), hx(rng.choice([1, 5, 6, M64 >> 1])))]
+
+
 def gen_step(rng, v):
-    """one step, chosen with knowledge of the current values"""
+    """one step (or a short list of steps), chosen with knowledge of the current values"""
+    if rng.chance(1, 7):
+        return gen_boundary(rng)
     d, a, b = rng.below(4), rng.below(4), rng.below(4)
     k = rng.below(100)
     big = [i for i in range(4) if nwords(v[i]) >= 3]
@@ -264,9 +457,17 @@ def gen_step(rng, v):
         ops = ["uadd", "usub", "iadd", "isub", "uadd", "usub", "iadd", "isub", "uand", "uor", "uxor", "iand", "ior", "ixor"]
         if total <= MAXW:
             ops += ["umul", "imul", "umul", "imul", "udiv", "urem", "idiv", "irem", "ugcd"]
-        return "%s %s %x %x %x" % (rng.choice(ops), rng.choice(FORMS), d, a, b)
+        o = rng.choice(ops)
+        if o[1:] in ("div", "rem") and v[b] == 0 and rng.chance(7, 8):
+            nz = [i for i in range(4) if v[i] != 0]
+            if nz:
+                b = rng.choice(nz)
+        return "%s %s %x %x %x" % (o, rng.choice(FORMS), d, a, b)
     if k < 62:
         e = (d + 1 + rng.below(3)) % 4
+        nz = [i for i in range(4) if v[i] > 0]
+        if v[b] == 0 and nz and rng.chance(7, 8):
+            b = rng.choice(nz)
         return "udivrem %x %x %x %x" % (d, e, a, b)
     if k < 76:
         # shifts that move the length across the thresholds
@@ -320,14 +521,16 @@ def gen_history(rng, tier):
     n = rng.choice([1, 2, 3, 5, 8, 12, 20, 30, 40])
     steps = []
     while len(steps) < n:
-        st = gen_step(rng, v)
-        t = st.split()
+        sts = gen_step(rng, v)
+        if isinstance(sts, str):
+            sts = [sts]
         w = list(v)
-        sim(w, t)
+        for st in sts:
+            sim(w, st.split())
         if max(nwords(x) for x in w) > 2 * MAXW:
             continue
         v = w
-        steps.append(st)
+        steps.extend(sts)
     return "hist " + " ; ".join(steps)
 
 
